@@ -440,7 +440,14 @@ func UnlockFaultThenRelock(L time.Duration, replyLost bool) (out Outcome) {
 	la, lb := pa.NewLocker("x"), pb.NewLocker("x")
 	la.Lock()
 	la.Unlock() // the Delete is lost
-	lb.Lock()   // at once (reply lost) or after the left-over record's lease ran out (request lost)
+	// B acquires at once (reply lost) or after the left-over record's lease ran out (request lost). Whether it
+	// gets there at all is not this scenario's business (hand-off is C04's, the dying renewal C05's): bounded
+	bctx, bcancel := context.WithTimeout(context.Background(), 3*L+5*time.Second)
+	berr := lb.LockWithCtx(bctx)
+	bcancel()
+	if berr != nil {
+		return Outcome{Skipped: "B could not acquire after A's lost Delete: " + berr.Error()}
+	}
 	ctx, cancel := context.WithTimeout(context.Background(), 2*L)
 	err := la.LockWithCtx(ctx)
 	cancel()
